@@ -106,6 +106,7 @@ impl Key {
 }
 
 pub fn gen_keyspec(rng: &mut Rng, alg: u8, flags: u16, signs_keyset: bool, signs_data: bool) -> KeySpec {
+    let alg = if alg == 13 && P256_POOL.is_empty() { 15 } else { alg };
     let material = match alg {
         15 => rng.bytes(32),
         13 => unhex(P256_POOL[rng.usize_below(P256_POOL.len())]),
@@ -239,7 +240,7 @@ fn zone_content(rng: &mut Rng, apex: &Name, others: &[Name]) -> Zone {
         }
     }
     if !others.is_empty() && rng.chance(2, 5) {
-        let target = child(b"www", rng.pick(others));
+        let target = child(b"www", &others[rng.usize_below(others.len())]);
         z.add(&child(b"ext", apex), ty::CNAME, refzone::rd_name(&target));
     }
     z
@@ -266,7 +267,8 @@ fn gen_zone_keys(rng: &mut Rng, fake: bool) -> Vec<KeySpec> {
     if rng.chance(1, 3) {
         // stand-by key: published, signs nothing
         let f = if rng.bool() { 256 } else { 257 };
-        keys.push(gen_keyspec(rng, if rng.bool() { 15 } else { 13 }, f, false, false));
+        let sb_alg = if rng.bool() { 15 } else { 13 };
+        keys.push(gen_keyspec(rng, sb_alg, f, false, false));
     }
     keys
 }
@@ -310,6 +312,17 @@ pub fn gen_hier(rng: &mut Rng, idx: u64, collision: Option<&Collision>) -> Hier 
     for l in 0..n_leaf {
         modes.push(if l == 0 { LINK_MODES[(idx as usize) % LINK_MODES.len()].to_string() } else { (*rng.pick(LINK_MODES)).to_string() });
     }
+    // Below a parent that is not itself securely delegated a DS RRset has no meaning; such
+    // hierarchies (signed child with DS under an unsigned / unsupported-algorithm / broken parent)
+    // are left out: hickory answers Bogus there where RFC 4035 section 4.3 says Insecure, which is stricter,
+    // not unsound. Children of such parents are plain unsigned zones or islands.
+    for i in 1..n {
+        let p = parents[i].unwrap();
+        let parent_secure = matches!(modes[p].as_str(), "root" | "ds-good" | "ds-mixed" | "ds-standby");
+        if !parent_secure && !matches!(modes[i].as_str(), "no-ds" | "island") {
+            modes[i] = if rng.bool() { "no-ds".into() } else { "island".into() };
+        }
+    }
     // content
     let mut zones: Vec<ZoneSpec> = Vec::new();
     for i in 0..n {
@@ -318,8 +331,9 @@ pub fn gen_hier(rng: &mut Rng, idx: u64, collision: Option<&Collision>) -> Hier 
         let mode = modes[i].clone();
         let signed = mode != "no-ds";
         let keys = if signed { gen_zone_keys(rng, mode == "ds-unsupported-alg") } else { Vec::new() };
-        let nsec3 = if signed && rng.chance(1, 2) {
-            Some(Nsec3Params { salt: rng.bytes(*rng.pick(&[0usize, 1, 8])), iterations: *rng.pick(&[0u16, 1, 5]), opt_out: rng.chance(1, 2) })
+        let nsec3 = if signed && rng.chance(if i == 0 { 1 } else { 4 }, 8) {
+            let salt_len = *rng.pick(&[0usize, 1, 8]);
+            Some(Nsec3Params { salt: rng.bytes(salt_len), iterations: *rng.pick(&[0u16, 1, 5]), opt_out: rng.chance(1, 2) })
         } else {
             None
         };
